@@ -535,6 +535,10 @@ class Check(PropertyCheck):
         valid = inv_bytes(VALID_LINES)
         q = ['mod.Cls.attr', 'mod.func', 'nothing', 'mod.dup 0', 'twisted.internet.defer.Deferred', 'genindex', '']
         add(fetch_case([(URL, valid)], q), 'valid')
+        # the 'py:' filter of _parseInventory: a type that merely starts with 'py' is not a Python reference
+        near = ['m.a py 1 m.html#a -', 'm.b pyx:function 1 m.html#b -', 'm.c python:class 1 m.html#c -',
+                'm.d PY:class 1 m.html#d -', 'm.e py:x 1 m.html#e -', 'm.g p 1 m.html#g -', 'm.h :py:x 1 m.html#h -']
+        add(fetch_case([(URL, inv_bytes(near))], ['m.a', 'm.b', 'm.c', 'm.d', 'm.e', 'm.g', 'm.h']), 'py_prefix')
         # URL / data stage
         for u in ['objects.inv', '', '/', '/objects.inv', 'http://h/b/', 'http://h', 'h/o', 'a/b/c/', '//', 'x/$']:
             add(fetch_case([(u, valid)], q), 'url')
